@@ -155,7 +155,7 @@ def _is_singular_values(v):
     return isinstance(p, dict) and p.get('role') == 's' and 'svd' in p
 
 
-def relative_cut_obligations(run, prop, rule, repo, sc, scen, mods=None):
+def relative_cut_obligations(run, prop, rule, repo, sc, scen, mods=None, expected=None, only_fns=None):
     """every threshold test on singular values must be the relative cut  s / s[0] > threshold  (the absolute variant only inside
     utils.truncated_svd when rel_truncation is False)"""
     n = 0
@@ -182,6 +182,12 @@ def relative_cut_obligations(run, prop, rule, repo, sc, scen, mods=None):
             continue
         n += 1
         where, cons, f, ln = ev_where(repo, e, mods)
+        if expected is not None and isinstance(r, (int, float)) and not isinstance(r, bool) and (only_fns is None or (e.get('fn') is not None and e['fn'].name in only_fns)):
+            # option pass-through: the cut must use the threshold the caller asked for (an explicit 0 is a value, not "use the default")
+            good = any(abs(float(r) - float(x)) <= 1e-15 * max(1.0, abs(float(x))) for x in expected)
+            run.oblige(rule, (where, cons, 'threshold passed through'), good)
+            if not good:
+                run.add(Finding(prop, rule, where, cons, f'{scen}: the singular values are cut at {r} although the caller passed threshold {sorted(expected)}', f, ln))
         run.oblige(rule, (where, cons, 'relative cut'), ok)
         if not ok:
             run.add(Finding(prop, rule, where, cons, f'{scen}: singular values are cut by an absolute test (or not relative to the largest one) instead of s / s[0] > threshold', f, ln))
